@@ -75,7 +75,7 @@ def tasks(tier, seed):
             if peer.get("needs_ping") and not ping:
                 continue
             for tls in (False, True):
-                ts.append({"kind": "ending", "e": i, "ping": ping, "tls": tls, "bound": (1 if tier == "quick" else 2) if ping else 0,
+                ts.append({"kind": "ending", "e": i, "ping": ping, "tls": tls, "bound": (2 if tier == "quick" else 4) if ping else 0,
                            "name": "%s/ping=%s/tls=%s" % (name, ping, tls)})
     # close() from a second thread
     for ping in (False, True):
@@ -95,7 +95,7 @@ def tasks(tier, seed):
                         for k in range(nsh):
                             ts.append({"kind": "closer", "ping": ping, "tls": tls, "reaction": reaction, "line": False, "delay": delay, "lat": lat,
                                        "shard": [k, nsh] if nsh > 1 else None,
-                                       "bound": 1 if tier == "quick" else 2, "name": "closer/sync/ping=%s/tls=%s/%s/delay=%.2f/lat=%.2f/%d" % (ping, tls, reaction, delay, lat, k)})
+                                       "bound": 2 if tier == "quick" else 4, "name": "closer/sync/ping=%s/tls=%s/%s/delay=%.2f/lat=%.2f/%d" % (ping, tls, reaction, delay, lat, k)})
     line_cases = [(False, False, "reply+eof")] if tier == "quick" else [(p, t, r) for p in (False, True) for t in (False, True) for r in ("reply+eof", "silent")]
     for ping, tls, reaction in line_cases:
         for delay in ((0.0, 1.0) if tier == "quick" else (0.0, 0.5, 1.0, 1.5, 4.0)):
@@ -105,8 +105,19 @@ def tasks(tier, seed):
                 if tier == "quick" and delay == 1.0 and lat == 0.25:
                     continue
                 for k in range(8):
-                    ts.append({"kind": "closer", "ping": ping, "tls": tls, "reaction": reaction, "line": True, "bound": 1, "delay": delay, "shard": [k, 8], "lat": lat,
+                    ts.append({"kind": "closer", "ping": ping, "tls": tls, "reaction": reaction, "line": True, "bound": 2, "delay": delay, "shard": [k, 8], "lat": lat,
                                "name": "closer/line/ping=%s/tls=%s/%s/delay=%.2f/lat=%.2f/shard%d" % (ping, tls, reaction, delay, lat, k)})
+    # slow-thread model: 1 preemption + 1 "stall" (virtual time passes while the preempted loop thread stays parked)
+    for delay in ((1.0,) if tier == "quick" else (0.0, 0.5, 1.0, 1.5)):
+        for ping in ((False,) if tier == "quick" else (False, True)):
+            for k in range(8):
+                ts.append({"kind": "closer", "ping": ping, "tls": False, "reaction": "reply+eof", "line": False, "delay": delay, "lat": 0.25, "stall": True,
+                           "shard": [k, 8], "bound": 3, "name": "closer/stall/ping=%s/delay=%.2f/%d" % (ping, delay, k)})
+    # the same at line granularity: one preemption at any executed line (cost 2) followed by at most one stall (cost 1), bound 3
+    for delay in (() if tier == "quick" else (0.0, 1.0, 1.5)):
+        for k in range(16):
+            ts.append({"kind": "closer", "ping": False, "tls": False, "reaction": "reply+eof", "line": True, "delay": delay, "lat": 0.25, "stall": True,
+                       "preempt_cost": 2, "shard": [k, 16], "bound": 3, "name": "closer/line+stall/delay=%.2f/%d" % (delay, k)})
     # long tasks first (better packing on the worker pool)
     ts.sort(key=lambda t: (0 if t.get("line") else (1 if t["kind"] == "closer" and t["ping"] else 2)))
     return ts
@@ -154,6 +165,8 @@ def make_spec(desc):
         spec["attempts"] = [mk]
         spec["closer"] = {"delay": desc.get("delay", 0.0)}
         spec["line_level"] = desc["line"]
+        spec["stall"] = bool(desc.get("stall"))
+        spec["preempt_cost"] = desc.get("preempt_cost", 2)
         if desc["line"]:
             # only the closer's arrival is explored line by line: the main/ping threads are preempted in favour of the closer, never the reverse
             spec["line_filter"] = lambda thread, filename, lineno: thread.name != "closer"
@@ -212,7 +225,9 @@ def check_run(run, res, spec):
         after = [e for e in tr[ret_idx[0] + 1:] if not e[1].startswith("--")] if ret_idx else []
         if after:
             raise V("callback-after-return", "%s: %s called after run_forever returned" % (which, after[0][1]))
-        if closes[0][2] != tuple(e2["close"]):
+        if exp.get("closer") and k == 0 and closes[0][2] in ((None, None), (1000, "")):
+            pass  # the loop thread may read the server's answer to the closer's close frame before it notices the close(): either report is acceptable
+        elif closes[0][2] != tuple(e2["close"]):
             raise V("on-close-args", "%s: on_close%r, expected %r" % (which, closes[0][2], tuple(e2["close"])), got_none=closes[0][2] == (None, None))
         errs = [e for e in cbs if e[1] == "on_error"]
         if bool(errs) != e2["err"]:
